@@ -201,7 +201,9 @@ func evExtTaint(node, value string) h.Event {
 			return
 		}
 		v := value
-		if strings.HasPrefix(value, "now") {
+		if value == "nowms" {
+			v = fmt.Sprint(time.Now().UnixMilli())
+		} else if strings.HasPrefix(value, "now") {
 			var k int
 			fmt.Sscanf(strings.TrimSuffix(value[3:], "q"), "%d", &k)
 			v = fmt.Sprint(time.Now().Add(time.Duration(k) * Q).Unix())
